@@ -27,6 +27,8 @@ def main():
         sid = os.path.basename(d.rstrip("/"))
         if args and sid not in args:
             continue
+        if not os.path.exists(d + "meta.json"):
+            continue
         meta = json.load(open(d + "meta.json"))
         prop = meta["property"]
         feat = "--features serialize" if prop == "C09" else ""
